@@ -193,6 +193,11 @@ pub const CORPUS: &[&str] = &[
     "match = 1\nprint = match\nwith open(f) as g: pass\nif g: pass\ntype = print(match)\n",
     "with a as b, c as d:\n    match = b\nwhile x: x = x - 1\n",
     "a + b + c\nx.y.z(1)\nf()()\n",
+    // comments are named children of whatever they sit in
+    "f(a, # first\n  b)\n# top\nx = [1, # one\n     2]\ndef g(p, # p\n      q):\n    # body\n    return p\n",
+    // carriage returns and tabs
+    "a = 1\r\nb = 2\r\nc = \"x\"\r\n",
+    "def f():\n\tx = (1, 2)\n\tif x:\n\t\treturn x\n",
 ];
 
 /// Generate an error-free Python source with 0..max_stmts top-level statements.
